@@ -168,6 +168,8 @@ class LaserMachine(Machine):
             s = config["spec"]
             config["xs"] = [round(rng.uniform(s["min_wavelength"] - 5, s["max_wavelength"] + 5), 4) for _ in range(6)]
         if config["laser"]:
+            # round 8: the user parents a primitive of their own (an alignment target) to the laser node in some runs
+            config["rider"] = rng.random() < 0.4
             config["alt"] = {"kind": rng.choice(list(PROFILE_ATTRS)), }
             config["alt"]["spec"] = gen_spec(rng, config["alt"]["kind"])
         nops = rng.randint(3, 30)
@@ -243,9 +245,16 @@ class LaserMachine(Machine):
         if cfg.get("laser"):
             c.world = World()
             c.laser = Laser(parent=c.world, transform=translate(0.1, 0.2, 0.3), name="laser")
+            self._attach_rider(c)
             c.laser.laser_profile = c.obj
         env.stats.add("kinds", c.kind)
         return c
+
+    def _attach_rider(self, c):
+        c.rider = None
+        if c.cfg.get("rider"):
+            from raysect.primitive import Sphere
+            c.rider = Sphere(0.01, parent=c.laser, transform=translate(0.0, 0.0, -0.5), name="alignment target")
 
     def _getters(self, c, obj, kind):
         attrs = (PROFILE_ATTRS if kind in PROFILE_ATTRS else SPECTRUM_ATTRS)[kind]
@@ -451,6 +460,14 @@ class LaserMachine(Machine):
         if len(fresh) != len(got) or any(not all(close(a, b, 1e-12) for a, b in zip(x, y)) for x, y in zip(got, fresh)):
             raise Violation("laser-geometry-stale", c.kind, "laser holds %r, a fresh profile generates %r" % (got, fresh))
         kids = [k for k in c.laser.children]
+        rider = getattr(c, "rider", None)
+        if rider is not None:
+            if rider.parent is not c.laser:
+                raise Violation("laser-rider-lost", c.kind, "a primitive the user parented to the laser node is no longer its child")
+            if any(g is rider for g in geo):
+                raise Violation("laser-geometry-stale", c.kind, "laser.get_geometry() lists the user's own primitive as a laser segment")
+            kids = [k for k in kids if k is not rider]
+            env.probe("laser_checked_with_rider")
         if len(kids) != len(geo) or any(g.parent is not c.laser for g in geo):
             raise Violation("laser-geometry-stale", c.kind, "laser has %d children for %d segments" % (len(kids), len(geo)))
         if c.laser.laser_profile is not c.obj:
@@ -578,6 +595,7 @@ class LaserMachine(Machine):
             if op.get("gc_first"):
                 gc.collect()                                   # the old node (a reference cycle) dies before its successor is born
             c.laser = Laser(parent=c.world, transform=translate(0.1, 0.2, 0.3), name="laser")
+            self._attach_rider(c)
             c.laser.laser_profile = c.obj                      # the same profile object now serves the new node
             self._laser_check(c, env)
             env.probe("laser_node_recreated")
